@@ -5,6 +5,7 @@ import (
 	"context"
 	"encoding/json"
 	"fmt"
+	"google.golang.org/grpc"
 	"strings"
 	"sync"
 	"time"
@@ -43,19 +44,23 @@ func confLabel(p map[string]string) string {
 	if p["tls"] == "auto" {
 		s += "+auto"
 	}
+	if p["dialblock"] == "1" {
+		s += "+dialblock"
+	}
 	return s
 }
 
 func init() {
 	Register(&Prop{ID: "C03",
 		Meta: Meta{Stages: 2, Level: "fault_enumeration",
-			Rule:       "stage 0: a fault-free profile run per protocol configuration (and for net/rpc and gRPC also with the host working through a client that REATTACHED to a plugin another client started) records every schedule point (statement boundary) and kernel event (listen, stdout/stderr pipe write, accept, every socket write, close) the PLUGIN process passes, and every schedule point a HOST goroutine passes, while the host runs start, connect, dispense, unary call, streaming call, brokered connection in both directions, stdio write, ping, a slow call, kill; stage 1: one run per recorded point (first 1 (quick) / 3 (thorough) occurrences) in which the plugin is killed (thorough: also exit(3) and panic) exactly there - for host points: killed exactly while the host goroutine is at that statement, which then stays there 50 ms; plus every FAILING SYSTEM CALL in turn (a profile with all fault kinds armed but none firing lists every decision point the session reaches - connect refused, connection reset on the k-th write of each socket, listen / pipe / temp file / fork failing - and stage 1 fails exactly one of them per run), plus a group in which the plugin fails DURING the handshake (8 kinds of rejected first line x 0/1/3 further stdout lines behind it x exit/stay/close-stdout x gap), plus seeded runs: crash at a drawn simulated instant with schedule noise, wake-up order noise, and in a quarter of them connection faults instead (resets in the middle of calls, refused and slow connects). Oracle: every host call returns within its bound (no hang), no host panic, calls issued after the death that need the plugin return an error, afterwards Exited() is true and the context given to GRPCPlugin.GRPCClient is cancelled",
+			Rule:       "stage 0: a fault-free profile run per protocol configuration (and for net/rpc and gRPC also with the host working through a client that REATTACHED to a plugin another client started) records every schedule point (statement boundary) and kernel event (listen, stdout/stderr pipe write, accept, every socket write, close) the PLUGIN process passes, and every schedule point a HOST goroutine passes, while the host runs start, connect, dispense, unary call, streaming call, brokered connection in both directions, stdio write, ping, a slow call, kill; stage 1: one run per recorded point (first 1 (quick) / 3 (thorough) occurrences) in which the plugin is killed (thorough: also exit(3) and panic) exactly there - for host points: killed exactly while the host goroutine is at that statement, which then stays there 50 ms; plus every FAILING SYSTEM CALL in turn (a profile with all fault kinds armed but none firing lists every decision point the session reaches - connect refused, connection reset on the k-th write of each socket, listen / pipe / temp file / fork failing - and stage 1 fails exactly one of them per run), plus blocking dials (grpc.WithBlock() among the host's dial options / on a brokered dial) to a plugin that died before the dial: an error, not a wait for ever; plus a group in which the plugin fails DURING the handshake (8 kinds of rejected first line x 0/1/3 further stdout lines behind it x exit/stay/close-stdout x gap), plus seeded runs: crash at a drawn simulated instant with schedule noise, wake-up order noise, and in a quarter of them connection faults instead (resets in the middle of calls, refused and slow connects). Oracle: every host call returns within its bound (no hang), no host panic, calls issued after the death that need the plugin return an error, afterwards Exited() is true and the context given to GRPCPlugin.GRPCClient is cancelled",
 			Exhaustive: "every schedule point and kernel event the plugin process passes in the profiled operation sequence, per protocol configuration (3 quick / 6 thorough), first occurrence (quick) or first three (thorough)"},
 		Plan: func(tier string, seed uint64, stage int, prev []*h.Result) []*k.Spec {
 			confs := append(append([]map[string]string{}, c03Confs[:3]...), c03ReattachConfs...)
 			if tier == "thorough" {
 				confs = append(append([]map[string]string{}, c03Confs...), c03ReattachConfs...)
 			}
+
 			if tier == "selftest" {
 				if stage > 0 {
 					return nil
@@ -167,6 +172,18 @@ func init() {
 									P("proto", "grpc", "mux", "1", "hsfail", fmt.Sprint(li), "more", more, "end", end, "gap", gap)))
 							}
 						}
+					}
+				}
+				// blocking dials to a plugin that is already dead
+				for _, mx := range []string{"0", "1"} {
+					for _, bd := range []string{"client", "broker"} {
+						if mx == "1" && bd == "broker" {
+							// (a multiplexed brokered dial reports every failure of its knock as
+							// an error gRPC takes for temporary: a blocking dial then waits for
+							// as long as the host lets it - what the host asked for)
+							continue
+						}
+						out = append(out, sp("C03", fmt.Sprintf("blocking-dial/mux%s/%s", mx, bd), seed, P("proto", "grpc", "mux", mx, "blockdial", bd)))
 					}
 				}
 				// seeded: crash at a drawn instant with schedule noise
@@ -299,9 +316,79 @@ func runC03HS(r *h.Run) {
 	w.Probe("hsfail.checked")
 }
 
+// runC03BlockingDial: the host asked gRPC for blocking dials; the plugin is
+// dead by the time of the dial. (A plugin that dies AFTER it accepted the
+// connection and before the HTTP/2 preface is another matter: gRPC's first
+// error is then a temporary one, its channel stays in TRANSIENT_FAILURE and a
+// blocking dial never returns - gRPC semantics the host asked for, DESIGN 0.8.)
+func runC03BlockingDial(r *h.Run) {
+	w := r.W
+	c := r.ConfFromParams()
+	what := r.Spec.P("blockdial", "client")
+	ctx := fmt.Sprintf("conf=%s blocking-dial=%s", c.String(), what)
+	if what == "client" {
+		c.TweakClient = func(cc *plugin.ClientConfig) { cc.GRPCDialOptions = append(cc.GRPCDialOptions, grpc.WithBlock()) }
+	}
+	r.InstallPlugin(&c)
+	cl := r.NewClient(c)
+	if o := r.DoNoHang("Start", 90*time.Second, ctx, func() (any, error) { return cl.Start() }); o.Err != nil || o.Hung {
+		r.Violate("setup", "start "+ctx, fmt.Sprint(o.Err))
+		return
+	}
+	plug := w.ProcByName("plugin")
+	if what == "client" {
+		plug.Crash(137, "dies before the host connects")
+		w.CountFault("proc.crash")
+		time.Sleep(100 * time.Millisecond)
+		o := r.Do("Client", 60*time.Second, func() (any, error) { return cl.Client() })
+		if o.Hung {
+			r.Violate("hang", "op=Client "+ctx, "Client() with a blocking dial never returned although the plugin is dead\n"+r.HostStacks("goplugin"))
+		} else if o.Err == nil {
+			if _, err := o.Val.(plugin.ClientProtocol).Dispense(h.PluginName); err == nil {
+				r.Violate("no-error", ctx, "connected to and dispensed from a dead plugin")
+			}
+		}
+	} else {
+		o := r.DoNoHang("Client+Dispense", 90*time.Second, ctx, func() (any, error) {
+			cp, err := cl.Client()
+			if err != nil {
+				return nil, err
+			}
+			return cp.Dispense(h.PluginName)
+		})
+		if o.Err != nil || o.Hung {
+			r.Violate("setup", "connect "+ctx, fmt.Sprint(o.Err))
+			return
+		}
+		gc := o.Val.(*plugins.GRPCClient)
+		gc.Do("accept", "4400")
+		time.Sleep(200 * time.Millisecond)
+		plug.Crash(137, "dies after announcing a brokered listener")
+		w.CountFault("proc.crash")
+		time.Sleep(100 * time.Millisecond)
+		o2 := r.Do("BrokerDial(WithBlock)", 60*time.Second, func() (any, error) { return gc.Broker.DialWithOptions(4400, grpc.WithBlock()) })
+		if o2.Hung {
+			r.Violate("hang", "op=BrokerDial "+ctx, "a blocking brokered dial never returned although the plugin is dead\n"+r.HostStacks("goplugin"))
+		} else if o2.Err == nil {
+			r.Violate("no-error", ctx, "a brokered dial to a dead plugin succeeded")
+		}
+	}
+	ko := r.Do("Kill", 150*time.Second, func() (any, error) { cl.Kill(); return nil, nil })
+	if ko.Hung {
+		r.Violate("hang", "op=Kill "+ctx, r.HostStacks("goplugin"))
+	}
+	if !cl.Exited() {
+		r.Violate("not-exited", ctx, "Exited() is false after the plugin died and Kill returned")
+	}
+}
+
 func runC03(r *h.Run) {
 	if r.Spec.P("hsfail", "") != "" {
 		runC03HS(r)
+		return
+	}
+	if r.Spec.P("blockdial", "") != "" {
+		runC03BlockingDial(r)
 		return
 	}
 	w := r.W
